@@ -1,5 +1,62 @@
+"""C14 - distance-filtered search keeps exactly the pairs inside both radii."""
 from .. import AnalysisBroken
+from ..data import check_vdists
+from ..nnabs import MOD
+from ._nn import check_rank2, run_fga
+from ._tcr import check_tcrdist
+
+CLAIMED = True
+LEVEL = "other"
+TECHNIQUE = "filter-guard acceptance analysis of every engine with a callable custom distance (finite and infinite radius); constant folding of the TCRdist pipeline per chain with sibling agreement of the alpha/beta blocks; rank analysis of column subscripts; direct check of the shipped V-gene tables"
+TEXT = ("Decides for all engines, with custom_distance folded to an opaque callable, that a pair is kept iff Levenshtein(query, reference) <= max_edits "
+        "(explicit guard, or implied by the breadth-first ball) and, when max_custom_distance is finite, custom(query, reference) <= max_custom_distance; "
+        "that no other filter exists, that the reported value is custom(query[A], reference[B]) of exactly the reported positions, and that the result "
+        "therefore depends on the two distances only. For nearest_neighbor_tcrdist, per chain in {alpha, beta, both}: candidates come from "
+        "nearest_neighbor on the (optionally trimmed) CDR3 column of the selected chain with the caller's max_edits; the V term is _lookup on "
+        "vdists_<chain>.csv with the TR<c>V labels of both ends of each edge; the CDR3 term uses the full CDR3<c> column over the same edges; 'both' "
+        "adds the alpha block to the beta block; the sum is written to column 2 and rows with value <= max_tcrdist are returned; an empty candidate "
+        "list returns an empty result; _lookup's flat index is row*ncols + col. Both bundled tables are square, identically labelled, symmetric with "
+        "zero diagonal. Grade B; pwseqdist is trusted (absent from the sandbox).")
+NOTE = "Trusted: pwseqdist.apply_pairwise_sparse(metric, seqs, pairs) returns the metric per listed pair; pandas Index.get_indexer positions; rapidfuzz Levenshtein; custom distances are symmetric with d(x,x)=0 (statement's quantifier)."
 
 
 def run(r):
-    raise AnalysisBroken("rule set for C14 not implemented yet (fail-closed stub)")
+    rep = r.rep
+    rep.explanation = "All insertion sites under a callable custom distance, the TCRdist pipeline per chain value, rank-2 subscripts and the two shipped tables were analysed."
+    rep.trust("rapidfuzz.distance.Levenshtein.distance is the exact Levenshtein distance", "DESIGN Appendix A.1 / A.2 / A.4 / A.5 (candidate lemmas)",
+              "pwseqdist.apply_pairwise_sparse(metric=f, seqs=S, pairs=E)[k] = f(S[E[k,0]], S[E[k,1]])", "pandas Index.get_indexer(labels) returns positions; DataFrame.values is row-major")
+    run_fga(r, "C14", {"callable"}, floor=10)
+    n = check_rank2(r, "C14-SHP", MOD + "nearest_neighbor_tcrdist")
+    rep.require(n >= 2, f"C14-SHP: {n} rank-2 subscripts on the neighbour array, floor is 2")
+    check_tcrdist(r, "C14-TCR")
+    for name in ("vdists_alpha.csv", "vdists_beta.csv"):
+        check_vdists(rep, "C14-DATA", r.P.root, name)
+    rep.floor("C14-DATA", 14)
+
+
+from ..selftest import V  # noqa: E402
+
+N = "pyrepseq/nn.py"
+VARIANTS = [
+    V("D5-symdel-single-threshold", N, "        is_custom = custom_distance not in (None, 'hamming')\n        threshold = max_custom_distance if is_custom else max_edits\n",
+      "        threshold = max_custom_distance\n        if custom_distance in (None, 'hamming') or max_custom_distance == float('inf'):\n            threshold = max_edits\n        is_custom = False\n", rule="C14-FGA"),
+    V("D5-lookup-no-edit-radius", N, "                if is_custom and levenshtein(seqs2[i], self.seqs[j]) > self.max_edits:\n                    continue\n", "", rule="C14-FGA"),
+    V("D6a-empty-candidates", N, "    if len(neighbors) == 0:\n        return np.empty((0, 3))\n", "", rule="C14-SHP"),
+    V("distance-filter-or", N, "return x[2] <= max_cust_dist and edit_distance <= max_edits", "return x[2] <= max_cust_dist or edit_distance <= max_edits", rule="C14-FGA"),
+    V("custom-worker-edit-radius-of-wrong-pair", N, "        edit_distance = levenshtein(query, seqs[x[1]])", "        edit_distance = levenshtein(query, seqs[x[0]])", rule="C14"),
+    V("lookup-custom-strict", N, "if not is_custom or dist <= max_custom_distance:", "if not is_custom or dist < max_custom_distance:", rule="C14-FGA"),
+    V("symdel-reports-levenshtein", N, "                dist = custom_distance(seqs[i], seqs[j])\n                if dist > threshold:\n                    continue\n                ans.add", "                dist = levenshtein(seqs[i], seqs[j])\n                if dist > threshold:\n                    continue\n                ans.add", rule="C14-FGA"),
+    V("asymmetric-table-entry", "pyrepseq/data/vdists_alpha.csv", "TRAV1-1*01,0,4,16", "TRAV1-1*01,0,5,16", rule="C14-DATA"),
+    V("tcr-both-drops-alpha-V", N, "        tcrdist_v += _lookup(vdists,", "        tcrdist_v = tcrdist_v + 0 * _lookup(vdists,", rule="C14-TCR"),
+    V("tcr-final-strict", N, "return neighbors_arr[neighbors_arr[:, 2]<=max_tcrdist]", "return neighbors_arr[neighbors_arr[:, 2]<max_tcrdist]", rule="C14-TCR-RET"),
+    V("tcr-alpha-block-uses-beta-column", N, "        chain = 'alpha'\n        chain_letter = chain[0].upper()", "        chain = 'alpha'\n        chain_letter = 'B'", rule="C14-TCR"),
+    V("tcr-max-edits-not-forwarded", N, "        neighbors = nearest_neighbor(seqs, max_edits=max_edits, **kwargs)", "        neighbors = nearest_neighbor(seqs, **kwargs)", rule="C14-TCR-CAND"),
+    V("tcr-trim-swapped", N, ".str[ntrim:-ctrim])", ".str[ctrim:-ntrim])", rule="C14-TCR-CAND"),
+    V("tcr-cdr3-on-trimmed", N, "    tcrdist_cdr3 = pwseqdist.apply_pairwise_sparse(metric=pwseqdist.metrics.nb_vector_tcrdist,\n                                seqs=np.asarray(df[f'CDR3{chain_letter}']), pairs=edges,", "    tcrdist_cdr3 = pwseqdist.apply_pairwise_sparse(metric=pwseqdist.metrics.nb_vector_tcrdist,\n                                seqs=np.asarray(df[f'CDR3{chain_letter}'].str[3:]), pairs=edges,", rule="C14-TCR-SUM"),
+    V("tcr-v-edges-same-end", N, "    tcrdist_v = _lookup(vdists,\n                        df[f'TR{chain_letter}V'].iloc[edges[:, 0]],\n                        df[f'TR{chain_letter}V'].iloc[edges[:, 1]])", "    tcrdist_v = _lookup(vdists,\n                        df[f'TR{chain_letter}V'].iloc[edges[:, 0]],\n                        df[f'TR{chain_letter}V'].iloc[edges[:, 0]])", rule="C14-TCR-SUM"),
+    V("lookup-flat-index-rows", N, "    flat_index = ridx * len(df.columns) + cidx", "    flat_index = ridx * len(df.index) + cidx", rule="C14-TCR-LOOKUP"),
+    V("tcr-kwargs-mutated-default", N, "    tcrdist_kwargs_this.update(tcrdist_kwargs)\n", "    tcrdist_kwargs.update(tcrdist_kwargs_this)\n    tcrdist_kwargs_this = tcrdist_kwargs\n", rule="C14-TCR"),
+    V("silent-gap-penalty-12", N, "gap_penalty=4*3)", "gap_penalty=12)", expect="silent"),
+    V("silent-edit-check-after-custom", N, "                if is_custom and levenshtein(seqs2[i], self.seqs[j]) > self.max_edits:\n                    continue\n                dist = custom_distance(seqs2[i], self.seqs[j])\n                if dist > threshold:\n                    continue\n",
+      "                dist = custom_distance(seqs2[i], self.seqs[j])\n                if dist > threshold:\n                    continue\n                if is_custom and levenshtein(seqs2[i], self.seqs[j]) > self.max_edits:\n                    continue\n", expect="silent"),
+]
